@@ -70,7 +70,7 @@ Definition kind_result (loc : string) (k : kind) : option outcome :=
   | KPermFail m => Some (PermFail (fmt m) (Some loc))
   end.
 
-Definition is_permfail (o : res (option outcome)) : Prop := exists m l, o = Done (Some (PermFail m l)).
+Definition is_permfail (o : option outcome) : Prop := exists m l, o = Some (PermFail m l).
 
 (* ====================================================================== *)
 (* celpy's filter                                                          *)
@@ -175,20 +175,16 @@ Qed.
 Lemma evaluate_predicates_kept : forall loc es,
   Forall (fun e => exists b, assert_of e = Some b) es ->
   evaluate_predicates es loc =
-    match first_err (VList (kept es)) with
-    | Some true => Done (Some (fail_eval loc))
-    | Some false => Done (Some (fail_exn loc))
-    | None => match kept es with
-              | [] => Done None
-              | p :: _ => Done (settle loc (decide loc p))
-              end
-    end.
+    if existsb scan (kept es) then Some (fail_eval loc)
+    else match kept es with
+         | [] => None
+         | p :: _ => settle loc (decide loc p)
+         end.
 Proof.
   intros loc es H. unfold evaluate_predicates, cel_filter. rewrite (filter_false_some es H).
-  unfold evaluate_predicates_raw.
-  destruct (first_err (VList (kept es))) as [[]|]; auto.
+  unfold evaluate_predicates_raw. rewrite scan_list.
+  destruct (existsb scan (kept es)); auto.
   unfold p2k. destruct (kept es) as [|p r]; auto.
-  unfold settle. now destruct (decide loc p).
 Qed.
 
 (* ====================================================================== *)
@@ -224,16 +220,15 @@ Theorem first_false_decides : forall loc es specs,
   specs_of es specs ->
   (forall e, In e es -> assert_of e = Some false -> err_free e) ->
   evaluate_predicates es loc =
-    Done match find (fun s => negb (fst s)) specs with
-         | None => None
-         | Some s => kind_result loc (snd s)
-         end.
+    match find (fun s => negb (fst s)) specs with
+    | None => None
+    | Some s => kind_result loc (snd s)
+    end.
 Proof.
   intros loc es specs Hs Hfree.
   rewrite (evaluate_predicates_kept loc es (specs_assert _ _ Hs)).
-  assert (Hk : first_err (VList (kept es)) = None).
-  { apply first_err_scan. rewrite scan_list.
-    destruct (existsb scan (kept es)) eqn:E; auto.
+  assert (Hk : existsb scan (kept es) = false).
+  { destruct (existsb scan (kept es)) eqn:E; auto.
     apply existsb_exists in E as (e & Hin & He). unfold kept in Hin.
     apply filter_In in Hin as [Hin Ha].
     destruct (assert_of e) as [[]|] eqn:Ea; try discriminate.
@@ -241,13 +236,13 @@ Proof.
   rewrite Hk, find_filter_hd.
   pose proof (kept_specs es specs Hs) as HK.
   destruct HK as [|p s ps ss Hp _]; cbn; auto.
-  f_equal. eapply settle_decide_is_pred; eauto.
+  eapply settle_decide_is_pred; eauto.
 Qed.
 
 (* no assertion false: continue *)
 Corollary none_false_continues : forall loc es specs,
   specs_of es specs -> Forall (fun s => fst s = true) specs ->
-  evaluate_predicates es loc = Done None.
+  evaluate_predicates es loc = None.
 Proof.
   intros loc es specs Hs Ht. rewrite (first_false_decides loc es specs Hs).
   - replace (find (fun s => negb (fst s)) specs) with (@None (bool * kind)); auto.
@@ -263,10 +258,10 @@ Corollary first_false_at : forall loc es specs pre k post,
   specs_of es specs ->
   (forall e, In e es -> assert_of e = Some false -> err_free e) ->
   specs = pre ++ (false, k) :: post -> Forall (fun s => fst s = true) pre ->
-  evaluate_predicates es loc = Done (kind_result loc k).
+  evaluate_predicates es loc = kind_result loc k.
 Proof.
   intros loc es specs pre k post Hs Hf -> Hpre.
-  rewrite (first_false_decides loc es _ Hs Hf). clear Hs Hf. f_equal.
+  rewrite (first_false_decides loc es _ Hs Hf). clear Hs Hf.
   induction Hpre as [|s r H _ IH]; cbn; auto.
   now rewrite H.
 Qed.
@@ -294,13 +289,10 @@ Proof.
   assert (Hb' : Forall (fun e => exists b, assert_of e = Some b) es).
   { eapply Forall_impl; [|exact Hb]. intros x. apply assert_of_bool. }
   rewrite (evaluate_predicates_kept loc es Hb').
-  assert (Hk : scan (VList (kept es)) = true).
-  { rewrite scan_list. apply existsb_exists. exists e. split; [|now apply scan_complete].
+  assert (Hk : existsb scan (kept es) = true).
+  { apply existsb_exists. exists e. split; [|now apply scan_complete].
     unfold kept. apply filter_In. split; auto. now rewrite Ha. }
-  destruct (first_err (VList (kept es))) as [[]|] eqn:F.
-  - unfold fail_eval. red. eauto.
-  - unfold fail_exn. red. eauto.
-  - apply first_err_scan in F. congruence.
+  rewrite Hk. unfold fail_eval. red. eauto.
 Qed.
 
 Corollary deciding_msg_err_permfail : forall loc es pre e post,
@@ -325,7 +317,7 @@ Qed.
 
 (* retry with a delay that is not an integer => PermFail *)
 Lemma retry_bad_delay_permfail : forall loc m d,
-  delay_of d = None -> is_permfail (Done (kind_result loc (KRetry m d))).
+  delay_of d = None -> is_permfail (kind_result loc (KRetry m d)).
 Proof. intros loc m d H. cbn. rewrite H. red. eauto. Qed.
 
 (* the outcome never is Ok, and evaluate_predicates is total by construction *)
@@ -345,7 +337,7 @@ Qed.
 (* ValueFunction: a precondition outcome is returned as is; only the preconditions
    were evaluated (locals and return never reach celpy) *)
 Theorem vf_precondition_stops : forall f base loc o,
-  evaluate_predicates_opt (vf_pre f) (sloc loc "preconditions") = Done (Some o) ->
+  evaluate_predicates_opt (vf_pre f) (sloc loc "preconditions") = Some o ->
   reconcile_vf f base loc = (Done (UOut o), trace_of SPre (vf_pre f)).
 Proof. intros f base loc o H. unfold reconcile_vf. now rewrite H. Qed.
 
@@ -353,7 +345,7 @@ Lemma trace_of_in : forall s s' r, In s (trace_of s' r) -> s = s'.
 Proof. intros s s' [r|]; cbn; intuition. Qed.
 
 Corollary vf_precondition_body_not_evaluated : forall f base loc o,
-  evaluate_predicates_opt (vf_pre f) (sloc loc "preconditions") = Done (Some o) ->
+  evaluate_predicates_opt (vf_pre f) (sloc loc "preconditions") = Some o ->
   fst (reconcile_vf f base loc) = Done (UOut o) /\
   ~ In SLocals (snd (reconcile_vf f base loc)) /\ ~ In SReturn (snd (reconcile_vf f base loc)).
 Proof.
@@ -363,9 +355,9 @@ Qed.
 
 (* ... and when the preconditions say "continue", the body is what decides *)
 Theorem vf_continue : forall f base loc idx rr,
-  evaluate_predicates_opt (vf_pre f) (sloc loc "preconditions") = Done None ->
+  evaluate_predicates_opt (vf_pre f) (sloc loc "preconditions") = None ->
   vf_return f = Some (idx, rr) ->
-  (vf_locals f = None \/ exists m, vf_locals f = Some (RVal (VMap m)) /\ err_free (VMap m)) ->
+  (vf_locals f = None \/ exists m, vf_locals f = Some (RVal (VMap m)) /\ scan (VMap m) = false) ->
   reconcile_vf f base loc =
     (evaluate_overlay idx rr (match base with Some b => b | None => [] end) (sloc loc "return"),
      trace_of SPre (vf_pre f) ++ trace_of SLocals (vf_locals f) ++ [SReturn]).
@@ -373,7 +365,7 @@ Proof.
   intros f base loc idx rr Hp Hr Hl. unfold reconcile_vf. rewrite Hp, Hr.
   destruct Hl as [->|(m & -> & Hs)]; cbn [evaluate trace_of].
   - now rewrite app_assoc.
-  - apply first_err_none_err_free in Hs. rewrite Hs. now rewrite app_assoc.
+  - rewrite Hs. now rewrite app_assoc.
 Qed.
 
 Section RFProofs.
@@ -383,18 +375,20 @@ Section RFProofs.
   (* ResourceFunction: a precondition outcome is returned before locals, before
      reconcile_krm_resource: no API call at all (reads included) *)
   Theorem rf_precondition_stops : forall f loc o,
-    evaluate_predicates_opt (rf_pre f) (sloc loc "preconditions") = Done (Some o) ->
-    reconcile_rf call krm f loc = (Done (Some (UOut o)), trace_of SPre (rf_pre f), []).
+    evaluate_predicates_opt (rf_pre f) (sloc loc "preconditions") = Some o ->
+    reconcile_rf call krm f loc = (Some (UOut o), trace_of SPre (rf_pre f), []).
   Proof. intros f loc o H. unfold reconcile_rf. now rewrite H. Qed.
 
   (* a postcondition outcome is returned as is and `return` is not evaluated *)
   Theorem rf_postcondition_stops : forall f loc o,
-    evaluate_predicates_opt (rf_post f) (sloc loc "postconditions") = Done (Some o) ->
+    evaluate_predicates_opt (rf_post f) (sloc loc "postconditions") = Some o ->
     forall r t calls, reconcile_rf call krm f loc = (r, t, calls) ->
     ~ In SReturn t /\
-    (In SPost t -> r = Done (Some (UOut o))).
+    (In SPost t -> r = Some (UOut o)).
   Proof.
     intros f loc o H r t calls0. unfold reconcile_rf.
+    destruct (evaluate_predicates_opt (rf_pre f) _) as [o1|].
+    { intros E; inversion E; subst; split; intros Hin; apply trace_of_in in Hin; discriminate. }
     assert (Hne : forall s a b, s <> SPre -> s <> SLocals ->
                ~ In s (trace_of SPre a ++ trace_of SLocals b)).
     { intros s a b H1 H2 Hin. apply in_app_or in Hin as [Hin|Hin]; apply trace_of_in in Hin; auto. }
@@ -402,24 +396,14 @@ Section RFProofs.
       by (intros; apply Hne; discriminate).
     assert (HP : forall a b, ~ In SPost (trace_of SPre a ++ trace_of SLocals b))
       by (intros; apply Hne; discriminate).
-    assert (Hstop : forall (x : res (option (uoutcome vtree))),
-              (x, trace_of SPre (rf_pre f) ++ trace_of SLocals (rf_locals f), @nil call) = (r, t, calls0) ->
-              ~ In SReturn t /\ (In SPost t -> r = Done (Some (UOut o)))).
-    { intros x E; inversion E; subst. split; intros Hin; [now apply HR in Hin|now apply HP in Hin]. }
-    assert (Htail : rf_after_locals call krm f loc
-                      (trace_of SPre (rf_pre f) ++ trace_of SLocals (rf_locals f)) = (r, t, calls0) ->
-              ~ In SReturn t /\ (In SPost t -> r = Done (Some (UOut o)))).
-    { unfold rf_after_locals. destruct (krm (rf_locals f)) as [[v|o3] calls].
-      - rewrite H. intros E; inversion E; subst. split; auto.
-        intros Hin. apply in_app_or in Hin as [Hin|Hin]; [now apply HR in Hin|].
-        destruct Hin as [Hin|Hin]; [discriminate|]. apply trace_of_in in Hin. discriminate.
-      - intros E; inversion E; subst. split; intros Hin; apply in_app_or in Hin as [Hin|[Hin|[]]];
-          try discriminate; [now apply HR in Hin|now apply HP in Hin]. }
-    destruct (evaluate_predicates_opt (rf_pre f) _) as [[o1|]|e1].
-    { intros E; inversion E; subst; split; intros Hin; apply trace_of_in in Hin; discriminate. }
-    2:{ intros E; inversion E; subst; split; intros Hin; apply trace_of_in in Hin; discriminate. }
-    destruct (evaluate (rf_locals f) (sloc loc "locals")) as [[|v|o2]|e2];
-      try exact Htail; try apply Hstop.
-    destruct v; try exact Htail; apply Hstop.
+    match goal with |- context [match ?X with Some _ => _ | None => _ end] =>
+      destruct X as [o2|] end.
+    { intros E; inversion E; subst; split; intros Hin; [now apply HR in Hin|now apply HP in Hin]. }
+    destruct (krm (rf_locals f)) as [[v|o3] calls].
+    - rewrite H. intros E; inversion E; subst. split; auto.
+      intros Hin. apply in_app_or in Hin as [Hin|Hin]; [now apply HR in Hin|].
+      destruct Hin as [Hin|Hin]; [discriminate|]. apply trace_of_in in Hin. discriminate.
+    - intros E; inversion E; subst. split; intros Hin; apply in_app_or in Hin as [Hin|[Hin|[]]];
+        try discriminate; [now apply HR in Hin|now apply HP in Hin].
   Qed.
 End RFProofs.
